@@ -96,7 +96,7 @@ def run : Runner
     let r := Gcs.fastReduction (UInt64.ofNat v) (UInt64.ofNat hi) (UInt64.ofNat lo)
     -- floor(v * (hi*2^32+lo) / 2^64): the BIP158 mapping
     let spec := (v * (hi * 2^32 + lo)) / 2^64 % 2^64
-    pure { model := toString r.toNat, prop := if hi < 2^32 ∧ lo < 2^32 then (if toString spec == toString r.toNat then "spec" else "model-bug") else "-" }
+    pure { model := toString r.toNat, prop := if hi < 2^32 ∧ lo < 2^32 then (if toString spec == toString r.toNat then "spec" else "violated:model-bug") else "-" }
   | "sip", [_, k, d], _ => do
     let k ← bytes? k; let d ← bytes? d
     pure { model := toString (sip k d).toNat, prop := "spec" }
